@@ -48,9 +48,9 @@ class ShardResult(dict):
     def dist(self, tag, n=1):
         self["hist"][tag] = self["hist"].get(tag, 0) + n
 
-    def corr_mismatch(self, what, inp, impl=None, model=None):
+    def corr_mismatch(self, what, inp, impl=None, model=None, signature=None):
         if len(self["corr"]) < 20:
-            self["corr"].append({"obligation": what, "input": inp, "impl": impl, "model": model})
+            self["corr"].append({"obligation": what, "input": inp, "impl": impl, "model": model, "signature": signature})
 
     def spec_failure(self, signature, inp, detail=""):
         if len(self["spec"]) < 200:
